@@ -227,11 +227,11 @@ def on_struct(fault):
             acc.vcs += 1
             # (the replay checks the position too: the real compilation goes further than the instrumented one, and may
             # report the fault from a later stage)
-            acc.candidate(kind="no-exception", input=dict(template=w, fault=name, offset=n + off, what=what), detail="faulty construct accepted")
+            acc.candidate(kind="no-exception-" + name, input=dict(template=w, fault=name, offset=n + off, what=what), detail="faulty construct accepted")
             return
         if isinstance(e, Foreign):
             acc.vcs += 1
-            acc.candidate(kind="no-exception", input=dict(template=w, fault=name, foreign=type(e.e).__name__),
+            acc.candidate(kind="no-exception-" + name, input=dict(template=w, fault=name, foreign=type(e.e).__name__),
                           detail="%s escapes instead of a Mako syntax / compile exception: %s" % (type(e.e).__name__, str(e.e)[:100]))
             return
         line, col = pos_terms(s.items, n + off)
@@ -244,7 +244,7 @@ def on_struct(fault):
         st, mod = p.vc(formula)
         if st == "fails":
             w2 = s.concretize(mod)
-            acc.candidate(kind="wrong-position", input=dict(template=w2, fault=name, offset=n + off, what=what),
+            acc.candidate(kind="wrong-position-" + name, input=dict(template=w2, fault=name, offset=n + off, what=what),
                           detail="reported (%s,%s)" % (e.lineno, e.pos))
         elif st == "unknown":
             acc.vcs_unknown += 1
@@ -450,7 +450,7 @@ if KIND == "error-page-wrong-line":
     got = shown[idx] if 0 <= idx < len(shown) else None
     print("exception names line", ln, "=", repr(want), "; html_error_template shows", repr(got))
     if got != want: bad = "error page displays a different line than exception.lineno names"
-elif KIND in ("wrong-position", "no-exception", "wrong-filename-or-source"):
+elif KIND == "wrong-filename-or-source" or KIND.startswith("no-exception") or KIND.startswith("wrong-position"):
     results = []
     for how in ("string", "lookup"):
         try:
@@ -495,7 +495,7 @@ sys.exit(1 if bad else 0)
 
 
 def classify(c):
-    if (c.get("input") or {}).get("fault") in ("unclosed-tag", "unclosed-nested-tag") and c["kind"] == "wrong-position":
+    if (c.get("input") or {}).get("fault") in ("unclosed-tag", "unclosed-nested-tag") and c["kind"].startswith("wrong-position"):
         return "C11-unclosed-tag-reported-at-end-of-template"
     return None
 
